@@ -43,6 +43,8 @@ TRUSTED_BASE = [
     "harness/xdsl_compat.py; xDSL 0.70 parser, Block/Region/clone, SymbolTable lookup",
 ]
 ASSUMPTIONS = [
+    "history theorems: kernels with attribute-free operations (plain; its failure is the known class not_distinct_by_type), one data arity per history, and a merge that goes through (exceptions of append are loud); decode_sound/valid_mapping_sem/switch_count hold for any well-formed abstract graph",
+    "the decidable hypotheses of the theorems (pe_wf of every merged graph, concreteness/unique ids/pe_wf of every encoded graph, block_ordered) are evaluated by the model on every real graph of the run (L1 kinds wf, kok, ord)",
     "the meaning of a scalar operation is an arbitrary function of (op name, attributes, operand values) (Section variable opsem); types are not modelled beyond their role in the choose-op ids",
     "a PE is evaluated demand-driven: only the choose ops on the selected paths are evaluated (hardware: all units compute, muxes select)",
     "the switch values of a call are consumed in switch order by the muxes and by the choose ops with more than one alternative (one-alternative switches are removed, as remove-one-option-switches does)",
@@ -765,7 +767,7 @@ def gen_case(rng, i):
 
 def search(ctx, deep=False):
     rng = ctx.rng
-    n = ctx.n(90, 1000) * (3 if deep else 1)
+    n = ctx.n(80, 1000) * (3 if deep else 1)
     fails = []
     for i in range(n):
         texts, order, stream = gen_case(rng, i)
@@ -798,7 +800,7 @@ def correspondence(ctx):
     from snaxc.phs.combine import append_to_abstract_graph
     from snaxc.phs.decode import decode_abstract_graph
     rng = ctx.rng
-    n = ctx.n(70, 600)
+    n = ctx.n(60, 600)
     _REG.clear()
     cases = {k: [] for k in ("enc", "app", "dec", "tsw", "wf", "kok", "ord")}
     meta = {k: [] for k in cases}
